@@ -523,7 +523,7 @@ pub fn scenario_of(spec: &SoloSpec, seed: u64, tier: Tier, i: u64, runs: u64) ->
     } else if i < runs + deep {
         deep_scenario(seed, tier, i - runs)
     } else {
-        enum_scenario(spec, i - runs - deep)
+        enum_scenario(spec, tier, i - runs - deep)
     }
 }
 
@@ -697,16 +697,35 @@ pub fn run_one(spec: &SoloSpec, seed: u64, tier: Tier, i: u64, runs: u64, stats:
     (sc, vs)
 }
 
-/// number of enumerated short-script runs appended after the seeded ones
+/// number of enumerated runs appended after the seeded ones: (a) every fuzzer script of length <= 1
+/// (quick) / <= 2 (thorough) with default-size ranges, (b) "short programs": every 3-byte script over
+/// the alphabet 0..A (A = 16 quick, 64 thorough; a byte picks `byte % n` among the n <= 64 candidate
+/// opcodes) with min = max = 5 opcodes — a systematic walk of the decision tree near the empty stack
 pub fn enum_count(spec: &SoloSpec, tier: Tier) -> u64 {
     if !spec.enumerate_short {
         return 0;
     }
+    short_script_count(spec, tier) + short_program_count(tier)
+}
+
+fn short_script_count(spec: &SoloSpec, tier: Tier) -> u64 {
     let scripts: u64 = match tier {
         Tier::Quick => 1 + 256,
         Tier::Thorough => 1 + 256 + 65_536,
     };
     scripts * 6 * enum_passes(spec)
+}
+
+fn program_alphabet(tier: Tier) -> u64 {
+    match tier {
+        Tier::Quick => 16,
+        Tier::Thorough => 64,
+    }
+}
+
+fn short_program_count(tier: Tier) -> u64 {
+    let a = program_alphabet(tier);
+    a * a * a * 6
 }
 
 fn enum_passes(spec: &SoloSpec) -> u64 {
@@ -717,9 +736,25 @@ fn enum_passes(spec: &SoloSpec) -> u64 {
     }
 }
 
-/// e-th enumerated scenario: all fuzzer scripts of length 0, 1, 2 x 6 protocols x configuration
-/// passes (defaults | all mutators at rate 1 | the same in unsafe mode)
-pub fn enum_scenario(spec: &SoloSpec, e: u64) -> Scenario {
+/// e-th enumerated scenario
+pub fn enum_scenario(spec: &SoloSpec, tier: Tier, e: u64) -> Scenario {
+    let base = short_script_count(spec, tier);
+    if e >= base {
+        // short programs from the empty stack
+        let x = e - base;
+        let p = (x % 6) as u8;
+        let a = program_alphabet(tier);
+        let y = x / 6;
+        let script = vec![(y % a) as u8, ((y / a) % a) as u8, ((y / (a * a)) % a) as u8];
+        let mut c = Config::default_for(p);
+        c.min_opcodes = 5;
+        c.max_opcodes = 5;
+        c.allow_ext = true;
+        c.allow_buffer = true;
+        let mut sc = Scenario::solo(c, Entropy::Bytes(script));
+        sc.faults.push(desc::Fault { kind: "cut", at: 3, detail: "enumerated short program".into() });
+        return sc;
+    }
     let passes = enum_passes(spec);
     let pass = e % passes;
     let p = ((e / passes) % 6) as u8;
